@@ -2,13 +2,13 @@
 # tools/try_patch_wt.sh <patch.diff> <tier> <Cxx> [Cyy ...]
 # Runs checks against a scratch worktree of /repo HEAD with the patch applied (the /repo tree itself is not touched;
 # evidence and replays go to /tmp/evalout/<tag>). The worktree is removed afterwards.
-patch="$(readlink -f "$1")"; tier="$2"; shift 2
+here="$(dirname "$(readlink -f "$0")")"; patch="$(readlink -f "$1")"; tier="$2"; shift 2
 tag="$(basename $(dirname $patch))_$(basename $patch .diff)_$$"
 wt=/tmp/mwt_$tag
 git -C /repo worktree add -q --detach $wt HEAD || exit 2
 trap 'git -C /repo worktree remove --force '$wt'; echo "[worktree removed]"' EXIT
 git -C $wt apply "$patch" || exit 2
-cd /verif
+cd "$here/.."
 for c in "$@"; do
   NIXPY_VERIF_SRC=$wt VERIF_OUT=/tmp/evalout/$tag ./check "$c" "$tier" 2>&1 | grep -E "^(VIOLATION|KNOWN|  signature|  what|C[0-9]+ (quick|thorough):|INFRA)" | cut -c1-400
   echo "exit=${PIPESTATUS[0]} check=$c"
